@@ -181,6 +181,39 @@ def do_call(spec):
             else:
                 out = {c: remove_default_routes.minimise(t, target_length=None) for c, t in st["tables"].items()}
             result = table_canon(out)
+        elif fn == "oc_aliases":
+            # the documented "update an already minimised table" use: a second ordered-covering pass that
+            # is handed the table AND the alias dictionary the first pass returned
+            from rig.routing_table import RoutingTableEntry, Routes
+            r = random.Random(seed)
+            res = []
+            for _ in range(6):
+                bits = r.choice([3, 4, 5])
+                routes = [Routes.north, Routes.south, Routes.east][:r.choice([1, 2, 3])]
+                keys = r.sample(range(1 << bits), r.randrange(4, (1 << bits) + 1))
+                grp = {k: routes[(k >> (bits - 1)) % len(routes)] if r.random() < 0.8 else r.choice(routes) for k in keys}
+                t = [RoutingTableEntry({grp[k]}, k, (1 << bits) - 1) for k in keys]
+                t1, al1 = ordered_covering.ordered_covering(list(t), max(2, len(t) // 2), no_raise=True)
+                # the caller then extends the minimised table: for some merged entries a sibling entry
+                # (one fixed bit flipped, same mask and route) is added, so the second pass merges
+                # entries that already carry aliases
+                t1 = list(t1)
+                for (k, m) in sorted(al1):
+                    fixed = [b for b in range(bits) if (m >> b) & 1]
+                    if fixed and r.random() < 0.7:
+                        e0 = [e for e in t1 if (e.key, e.mask) == (k, m)]
+                        k2 = k ^ (1 << r.choice(fixed))
+                        if e0 and not any((e.key & m) == (k2 & e.mask & m) and ((e.key ^ k2) & e.mask & m) == 0 for e in t1):
+                            t1.append(RoutingTableEntry(set(e0[0].route), k2, m))
+                t1.sort(key=lambda e: bin(~e.mask & ((1 << bits) - 1)).count("1"))
+                args = [t1, al1]
+                before = [snap(a) for a in args]
+                t2, al2 = ordered_covering.ordered_covering(t1, 0, aliases=al1, no_raise=True)
+                if before != [snap(a) for a in args]:
+                    raise AssertionError("ordered_covering modified the table / alias dictionary it was given")
+                res.append(table_canon({(0, 0): t2}))
+            args, before = [], []
+            result = res
         elif fn == "bitfield":
             from rig.bitfield import BitField
             r = random.Random(seed)
@@ -283,7 +316,7 @@ def do_call(spec):
 
 
 FNS = ["place_sequential", "place_seqcustom", "place_seqcustom", "place_hilbert", "place_rcm", "place_breadth_first", "place_rand", "place_sa",
-       "allocate", "route", "route", "tables", "minimise_tables", "minimise_oc", "minimise_rdr", "bitfield", "controller", "boot", "hexagons", "hexagons"]
+       "allocate", "route", "route", "tables", "minimise_tables", "minimise_oc", "minimise_rdr", "oc_aliases", "oc_aliases", "bitfield", "controller", "boot", "hexagons", "hexagons"]
 
 
 if __name__ == "__main__":
